@@ -16,8 +16,14 @@ def ibtp_id(f, t, i):
 
 
 class ExecGen:
-    def __init__(self, rng, focus=None, audit=None, price=None):
+    def __init__(self, rng, focus=None, audit=None, price=None, hub=None):
         self.rng = rng
+        # world option hub=1: another BitXHub (9999) is a registered relay chain from the start, so that the traffic between the
+        # two hubs (requests either way, receipts signed by the other hub's validators, the destination hub's notice, timeouts)
+        # is compared with the Lean model and not only monitored
+        self.hub = (rng.random() < 0.22 and (focus or "mixed") in ("single", "mixed")) if hub is None else hub
+        self.hub_open = []     # inter-hub transactions begun: [f, t, idx, T]
+        self.hub_next = {}     # (f, t) -> next index
         self.focus = focus or "mixed"
         self.ops = []
         self.tags = set()
@@ -27,8 +33,10 @@ class ExecGen:
         self.groups = []       # (gid-less) groups: dict(from, children=[(to, idx)], begun=set())
         audit = rng.random() < 0.3 if audit is None else audit
         price = rng.choice([1, 1, 1, 2, 1000]) if price is None else price
-        self.ops.append(f"world audit={int(audit)} price={price}")
-        self.height = 6
+        self.ops.append(f"world audit={int(audit)} price={price}" + (" hub=1" if self.hub else ""))
+        self.height = 11 if self.hub else 6
+        if self.hub:
+            self.tags.add("world:hub")
 
     def pair(self):
         r = self.rng
@@ -165,6 +173,53 @@ class ExecGen:
         self.ids.append(ibtp_id(f, t, idx))
         return f"ibtp {self.signer(t)} {f} {t} {idx} {typ} 0 - ok"
 
+    REMOTE = ["9999:c5:s1", "9999:c5:s1", "9999:c6:s2", "7777:c5:s1"]    # 7777: a BitXHub nobody registered
+
+    def tx_hub(self):
+        """traffic between this hub and hub 9999 (world option hub=1)"""
+        r = self.rng
+        k = r.random()
+        if self.hub_open and k < 0.3:
+            # the other side's receipt: for a request that went out, signed by the other hub's validators (msig<k>: k of them;
+            # four are registered, more than one must sign); for one that came in, the local destination chain's proof
+            f, t, idx, T = r.choice(self.hub_open)
+            out = f.count(":") == 1
+            typ = r.choices(["ok", "fail", "rb"], [0.55, 0.3, 0.15])[0]
+            pk = r.choices(["msig2", "msig3", "msig4", "msig1", "msig6", "ok", "bad"], [4, 2, 1, 2, 1, 1, 1])[0] if out else r.choices(["ok", "bad", "msig2"], [8, 1, 1])[0]
+            if r.random() < 0.12:
+                idx = max(0, idx + r.choice([1, -1]))
+            self.tags.add("hub:receipt:" + typ + ":" + ("out" if out else "in") + ":" + pk)
+            signer = "ca9" if out else self.signer(t)
+            return f"ibtp {signer} {f} {t} {idx} {typ} 0 - {pk}"
+        outs = [x for x in self.hub_open if x[0].count(":") == 1]
+        if outs and k < 0.5:
+            # the request comes back with the destination hub's notice in its Extra field
+            f, t, idx, T = r.choice(outs)
+            x = r.choices(["x:bf", "x:br", "x:ok", "x:junk"], [5, 4, 1, 1])[0]
+            pk = r.choices(["ok", "bad"], [9, 1])[0]
+            self.tags.add("hub:notice:" + x)
+            return f"ibtp {self.signer(f)} {f} {t} {idx} req {T} - {pk} {x}"
+        # a request, out (local service -> service over there) or in (the other hub relays one of its services' requests)
+        if r.random() < 0.65:
+            f, t = r.choice(SERVICES), r.choice(self.REMOTE)
+            pk = r.choices(["ok", "none", "bad"], [0.9, 0.05, 0.05])[0]
+            signer = self.signer(f)
+        else:
+            f, t = r.choice(self.REMOTE), r.choice(SERVICES)
+            pk = r.choices(["msig2", "msig3", "msig1", "ok", "bad"], [5, 2, 2, 1, 1])[0]
+            signer = "ca9"
+        nxt = self.hub_next.get((f, t), 1)
+        idx = nxt if r.random() < 0.8 else max(0, nxt + r.choice([-1, 1, 2]))
+        T = r.choice([0, 1, 2, 2, 3, 3, 4, 10, -1])
+        x = "" if r.random() < 0.93 else " " + r.choice(["x:bf", "x:junk", "x:ok"])
+        tid = ibtp_id(f, t, idx)
+        if idx == nxt and pk in ("ok", "msig2", "msig3") and not (f.count(":") == 1 and pk != "ok") and not (f.count(":") == 2 and pk == "ok"):
+            self.hub_next[(f, t)] = idx + 1
+            self.hub_open.append([f, t, idx, T])
+        self.ids.append(tid)
+        self.tags.add("hub:request:" + ("out" if f.count(":") == 1 else "in"))
+        return f"ibtp {signer} {f} {t} {idx} req {T} - {pk}{x}"
+
     def tx_xfer(self):
         r = self.rng
         a = r.choice(USERS)
@@ -195,7 +250,9 @@ class ExecGen:
         for _ in range(n):
             k = r.random()
             live_groups = [g for g in self.groups if len(g["begun"]) < len(g["children"])]
-            if self.focus == "group" and k < 0.22:
+            if self.hub and r.random() < 0.55:
+                txs.append(self.tx_hub())
+            elif self.focus == "group" and k < 0.22:
                 txs.append(self.tx_group_rcpt())
             elif self.focus == "group" and k < 0.5:
                 if live_groups and r.random() < 0.7:
@@ -345,7 +402,7 @@ class ExecGen:
 
     def history(self, nblocks):
         k = self.rng.random()
-        if self.focus == "single" and 0.8 < k <= 0.9:
+        if self.focus == "single" and 0.8 < k <= 0.9 and not self.hub:
             self.scripted_interhub()
             nblocks = min(nblocks, 4)
         if self.focus in ("single", "mixed") and k > 0.9:
@@ -488,7 +545,7 @@ def gen_c07(rng, n, tier):
     for _ in range(n):
         r = _r.Random(rng.getrandbits(64))
         g = ExecGen(r, focus="single", price=r.choice([1, 1, 2]))
-        price = int(g.ops[0].split("price=")[1])
+        price = int(g.ops[0].split("price=")[1].split()[0])
         poor = ["u3"] + r.sample(["ca1", "ca2", "ca3", "u2"], r.choice([1, 2, 2, 3]))
         g.ops.append("block " + " | ".join(starve(r, p, price) for p in poor))
         g.tags.add("c07")
